@@ -77,6 +77,12 @@ public:
     int getNumNeeded() const{ return needed.getNumIndexes(); }
     int getNumPoints() const{ return ((points.empty()) ? needed.getNumIndexes() : points.getNumIndexes()); }
     const int* getPointIndexes() const{ return ((points.empty()) ? needed.getIndex(0) : points.getIndex(0)); }
+#ifdef TASMANIAN_VERIF_HOOKS
+    //! \brief Verification hook: raw multi-indexes of the needed points (nullptr if there are none).
+    const int* verifNeededIndexes() const{ return (needed.empty()) ? nullptr : needed.getIndex(0); }
+    //! \brief Verification hook: raw multi-indexes of the loaded points (nullptr if there are none).
+    const int* verifLoadedIndexes() const{ return (points.empty()) ? nullptr : points.getIndex(0); }
+#endif
 
     virtual void write(std::ostream&, bool) const = 0;
 
